@@ -362,6 +362,7 @@ func (s *tokState) staticInvariants(notaryActive bool) []viol {
 type execStat struct {
 	Tx    util.Uint256
 	State string // HALT | FAULT | HALT(true) | HALT(false)
+	Fault string
 }
 
 type blockEvents struct {
@@ -483,7 +484,7 @@ func collectEvents(n *chainx.Node, b *block.Block) (*blockEvents, error) {
 			v, _ := aers[0].Stack[0].TryBool()
 			st += fmt.Sprintf("(%v)", v)
 		}
-		ev.Execs = append(ev.Execs, execStat{Tx: tx.Hash(), State: st})
+		ev.Execs = append(ev.Execs, execStat{Tx: tx.Hash(), State: st, Fault: aers[0].FaultException})
 		if err := take(aers, "tx"); err != nil {
 			return nil, err
 		}
